@@ -1521,10 +1521,9 @@ func (a *Authenticator) resumeSession(ctx context.Context, entry *SessionEntry, 
 				Reason:    "session not found on server",
 			}
 		} else if returnCode != "AUTHORIZED" {
-			return nil, &SessionResumptionError{
-				SessionID: entry.ID(),
-				Reason:    fmt.Sprintf("unexpected return code: %s", returnCode),
-			}
+			// The server refused to resume: retrying the same session can only be
+			// refused again, so drop it and let the next attempt negotiate afresh.
+			return fail(fmt.Sprintf("unexpected return code: %s", returnCode), nil)
 		}
 	}
 
@@ -1572,7 +1571,8 @@ func (a *Authenticator) resumeSession(ctx context.Context, entry *SessionEntry, 
 	// Set up encryption with cached key (only for session resumption)
 	if len(negotiation.GetSharedSecret()) > 0 {
 		if err := a.setupStreamEncryption(negotiation); err != nil {
-			return nil, fmt.Errorf("failed to setup stream encryption: %w", err)
+			// The cached key cannot be installed: the session is unusable, drop it
+			return fail("failed to setup stream encryption", err)
 		}
 	}
 
